@@ -363,3 +363,32 @@ def gen_langparse(rng, tier):
         ws = [rng.choice(W("0123456789abcdefABCDEF") + chars) for _i in range(8)]
         cases.append(["ver %s langparse" % hexb(ws)])
     return cases
+
+
+def gen_zero_records(rng, tier):
+    """nested records of length 0 / 1 / 2 / 3 bytes and of all-zero padding words at the end of (and
+    between) the children of the root, of StringFileInfo and of a string table, covered by the
+    parent's wLength: the nested parser must skip at least one header, never yield the same record again"""
+    cases = []
+    n = 40 if tier == "quick" else 1200
+    for _ in range(n):
+        v = rand_info(rng, True)
+        ws, nodes = encode(v, rng.random() < 0.5)
+        parents = [(s, e, d) for (s, e, d) in nodes if any(s < s2 and e2 <= e and (s2, e2) != (s, e) for (s2, e2, _d) in nodes)]
+        if not parents:
+            continue
+        s, e, d = rng.choice(parents)
+        filler = rng.choice([[0, 0, 0, 0], [0, 0, 0, 0, 0, 0, 0, 0], [1, 0, 0, 0], [2, 0, 1, 0], [3, 0, 0, 0], [0, 0], [0, 0, 1, 0x41, 0, 0]])
+        where = rng.choice(["end", "end", "mid"])
+        pos = e
+        if where == "mid":
+            kids = sorted(s2 for (s2, e2, _d) in nodes if s < s2 and e2 <= e)
+            pos = rng.choice(kids)
+        m = ws[:pos] + filler + ws[pos:]
+        for (s2, e2, _d) in nodes:
+            if s2 <= s and e <= e2:                 # the chosen parent and its ancestors grow
+                m[s2] = (m[s2] + 2 * len(filler)) & 0xFFFF
+        hx = hexb(m)
+        for q in ("events", rng.choice(["file_info", "source", "translation", "strings 040904b0", "value 040904b0 " + hexw(W("CompanyName"))])):
+            cases.append(["ver %s %s" % (hx, q)])
+    return cases
